@@ -85,8 +85,9 @@ Proof.
        (destruct i as [|[|i]]; [vm_compute in Hb; discriminate Hb | reflexivity | destruct i; vm_compute in Hb; discriminate Hb])).
   - intros p Hp i e He Hb. destruct p as [|[|[|p]]]; try lia; vm_compute in He; try contradiction; destruct He as [He|[]]; subst e;
       (destruct i as [|[|i]]; [vm_compute in Hb; discriminate Hb | reflexivity | destruct i; vm_compute in Hb; discriminate Hb]).
-  - intros p Hp e b He Hs. destruct p as [|[|[|p]]]; try lia; vm_compute in He; try contradiction; destruct He as [He|[]]; subst e;
-      vm_compute in Hs; discriminate Hs.
+  - intros p Hp fsx e b He Hs. destruct p as [|[|[|p]]]; try lia; vm_compute in He; try contradiction; destruct He as [He|[]]; subst e;
+      destruct (search_fetch_hash x_hashf x_bs _ fsx _ b Hs) as [f [i [Ef Eh]]]; cbn in Ef; injection Ef as Ef1 Ef2; subst f i;
+      unfold x_hashf in Eh; cbn in Eh; apply N.eqb_eq in Eh; unfold x_bs in Eh; cbn; lia.
   - intros p Hp. destruct p as [|[|[|p]]]; try lia; vm_compute; lia.
 Qed.
 
@@ -159,8 +160,9 @@ Proof.
        (destruct i as [|[|i]]; [reflexivity | vm_compute in Hb; discriminate Hb | destruct i; vm_compute in Hb; discriminate Hb])).
   - intros p Hp i e He Hb. destruct p as [|[|[|p]]]; try lia; vm_compute in He; try contradiction; destruct He as [He|[]]; subst e;
       (destruct i as [|[|i]]; [reflexivity | vm_compute in Hb; discriminate Hb | destruct i; vm_compute in Hb; discriminate Hb]).
-  - intros p Hp e b He Hs. destruct p as [|[|[|p]]]; try lia; vm_compute in He; try contradiction; destruct He as [He|[]]; subst e;
-      vm_compute in Hs; discriminate Hs.
+  - intros p Hp fsx e b He Hs. destruct p as [|[|[|p]]]; try lia; vm_compute in He; try contradiction; destruct He as [He|[]]; subst e;
+      destruct (search_fetch_hash x_hashf x_bs _ fsx _ b Hs) as [f [i [Ef Eh]]]; cbn in Ef; injection Ef as Ef1 Ef2; subst f i;
+      unfold x_hashf in Eh; cbn in Eh; apply N.eqb_eq in Eh; unfold x_bs in Eh; cbn; lia.
   - intros p Hp. destruct p as [|[|[|p]]]; try lia; vm_compute; lia.
 Qed.
 Lemma rx_no_larger2 : no_larger rx_c rx_fs2.
